@@ -39,7 +39,9 @@ Record wdb := mkW {
 
 Record world := mkWorld {
   g_fs : fsys; g_dbs : list wdb; g_handles : list (N * N);   (* completed handles: checkpoint id, directory of its checkpoints file *)
-  g_nextdir : N; g_mem : N; g_walmax : N }.
+  g_nextdir : N; g_mem : N; g_walmax : N;
+  g_dropped : list N   (* ghost: checkpoint ids that a SAVED retention update removed from a durable list, or that a restore
+                          into their directory superseded; no behaviour depends on it *) }.
 
 Inductive cres := CRnone | CRnil | CRadded (names : list fname) | CRswapped (removed : list fname) (added : list (fname * list entry)).
 
@@ -51,6 +53,9 @@ Inductive op :=
 | OStepCompact (d : N) (r : cres)
 | OStepCkpt (d id : N)
 | ORetain (d : N) (ids : list N)
+| ORetainF (d : N) (ids : list N) (f : N)      (* retention update whose Save hits a storage fault: 1 = writing the checkpoints file fails, 2 = deleting a WAL fails *)
+| OStepCkptF (d id : N) (f : N)                (* step of the asynchronous part of Checkpoint with a storage fault (WAL save; list save as above) *)
+| OStepFlushF (d : N)                          (* flush task whose first table Save fails: the task ends with an error, nothing is swapped *)
 | ORestore (d id : N) (same : bool) (o : own) (nb : nbmode)
 | OCrash (d : N)
 | ODrop (d : N)
@@ -58,7 +63,7 @@ Inductive op :=
 | ORead (d : N).
 
 Definition init_world (mem walmax : N) : world :=
-  mkWorld [] [mkW (db_new mem walmax) 0 OwnAll NbNone 0 [] [] FNone 0 CNone 0 [] [] Live] [] 1 mem walmax.
+  mkWorld [] [mkW (db_new mem walmax) 0 OwnAll NbNone 0 [] [] FNone 0 CNone 0 [] [] Live] [] 1 mem walmax [].
 
 Fixpoint upd {A} (l : list A) (i : nat) (x : A) : list A :=
   match l, i with
@@ -68,8 +73,12 @@ Fixpoint upd {A} (l : list A) (i : nat) (x : A) : list A :=
   end.
 Definition get_db (w : world) (d : N) : option wdb := nth_error (g_dbs w) (N.to_nat d).
 Definition set_db (w : world) (d : N) (x : wdb) : world :=
-  mkWorld (g_fs w) (upd (g_dbs w) (N.to_nat d) x) (g_handles w) (g_nextdir w) (g_mem w) (g_walmax w).
-Definition set_fs (w : world) (f : fsys) : world := mkWorld f (g_dbs w) (g_handles w) (g_nextdir w) (g_mem w) (g_walmax w).
+  mkWorld (g_fs w) (upd (g_dbs w) (N.to_nat d) x) (g_handles w) (g_nextdir w) (g_mem w) (g_walmax w) (g_dropped w).
+Definition set_fs (w : world) (f : fsys) : world := mkWorld f (g_dbs w) (g_handles w) (g_nextdir w) (g_mem w) (g_walmax w) (g_dropped w).
+Definition add_dropped (w : world) (ids : list N) : world :=
+  mkWorld (g_fs w) (g_dbs w) (g_handles w) (g_nextdir w) (g_mem w) (g_walmax w) (g_dropped w ++ ids).
+Definition add_handle (w : world) (h : N * N) : world :=
+  mkWorld (g_fs w) (g_dbs w) (g_handles w ++ [h]) (g_nextdir w) (g_mem w) (g_walmax w) (g_dropped w).
 
 Definition with_core (x : wdb) (c : dbc) : wdb :=
   mkW c (x_dir x) (x_own x) (x_nb x) (x_next x) (x_ckpts x) (x_pending x) (x_flush x) (x_flushq x) (x_comp x) (x_compq x) (x_cktasks x) (x_objs x) (x_state x).
@@ -105,11 +114,19 @@ Definition doc_of (c : ckrec) : doc := mkDoc (c_id c) (c_wal c) (c_after c) (c_l
 
 Definition num_of (n : fname) : N := snd n.
 
-(* CheckpointList.Save: write the documents of the current list, then Destroy (delete the WAL files of) the pending removals *)
-Definition save_list (w : world) (x : wdb) : world * wdb :=
-  let f1 := fs_put (g_fs w) (x_dir x, 2, 0) (FCk (map doc_of (x_ckpts x))) in
-  let f2 := fold_left (fun f c => fs_del f (c_wal c)) (x_pending x) f1 in
-  (set_fs w f2, with_ck x (x_ckpts x) [] (x_cktasks x)).
+(* CheckpointList.Save in two parts: (1) write and save the checkpoints file with the documents of the current list; only when
+   that succeeded (2) Destroy (delete the WAL files of) the pending removals and clear the pending list. Fault 1 = part 1 fails:
+   nothing changes; fault 2 = the first delete of part 2 fails (only possible when something is pending): the file is written, no WAL is
+   deleted, the pending list stays. The result says whether Save returned without error. *)
+Definition save_write (w : world) (x : wdb) : world :=
+  add_dropped (set_fs w (fs_put (g_fs w) (x_dir x, 2, 0) (FCk (map doc_of (x_ckpts x))))) (map c_id (x_pending x)).
+Definition save_destroy (w : world) (x : wdb) : world * wdb :=
+  (set_fs w (fold_left (fun f c => fs_del f (c_wal c)) (x_pending x) (g_fs w)), with_ck x (x_ckpts x) [] (x_cktasks x)).
+Definition save_list_f (w : world) (x : wdb) (f : N) : world * wdb * bool :=
+  if f =? 1 then (w, x, false)
+  else if (f =? 2) && negb (match x_pending x with [] => true | _ => false end) then (save_write w x, x, false)
+  else let '(w1, x1) := save_destroy (save_write w x) x in (w1, x1, true).
+Definition save_list (w : world) (x : wdb) : world * wdb := fst (save_list_f w x 0).
 
 (* reachability of table objects of one database object: current level set, checkpoints (retained and pending removal),
    tables held by a flush task between write and swap, tables held by a compaction between write and swap *)
@@ -198,7 +215,7 @@ Definition open_from (w : world) (id : N) (dir : N) (o : own) (nb : nbmode) : ro
 Definition dead_db (w : world) : wdb := mkW (db_new (g_mem w) (g_walmax w)) 0 OwnAll NbNone 0 [] [] FNone 0 CNone 0 [] [] Crashed.
 
 Definition add_db (w : world) (x : wdb) (usedfresh : bool) : world :=
-  mkWorld (g_fs w) (g_dbs w ++ [x]) (g_handles w) (if usedfresh then g_nextdir w + 1 else g_nextdir w) (g_mem w) (g_walmax w).
+  mkWorld (g_fs w) (g_dbs w ++ [x]) (g_handles w) (if usedfresh then g_nextdir w + 1 else g_nextdir w) (g_mem w) (g_walmax w) (g_dropped w).
 
 Definition write_op (w : world) (d : N) (k : bytes) (del : bool) (v : bytes) : world * bool :=
   match get_db w d with
@@ -212,6 +229,47 @@ Definition write_op (w : world) (d : N) (k : bytes) (del : bool) (v : bytes) : w
 (* RetainOnly: a checkpoint stays when its id is listed or is newer than every listed id (repair D34) *)
 Definition retain_keeps (ids : list N) (c : ckrec) : bool :=
   existsb (N.eqb (c_id c)) ids || (fold_right N.max 0 ids <? c_id c).
+
+Definition step_ckpt (w : world) (d id f : N) : world :=
+  match get_db w d with
+  | Some x =>
+      match find (fun t => fst t =? id) (x_cktasks x) with
+      | Some (_, false) =>
+          if f =? 1 then
+            (* the WAL save fails: the task ends with the error, the checkpoint stays in the list without a WAL file *)
+            set_db w d (with_ck x (x_ckpts x) (x_pending x) (filter (fun t => negb (fst t =? id)) (x_cktasks x)))
+          else
+          match find (fun c => c_id c =? id) (x_ckpts x ++ x_pending x) with
+          | Some c =>
+              let w1 := set_fs w (fs_put (g_fs w) (c_wal c) (FWal (c_content c))) in
+              set_db w1 d (with_ck x (x_ckpts x) (x_pending x) (map (fun t => if fst t =? id then (id, true) else t) (x_cktasks x)))
+          | None => w
+          end
+      | Some (_, true) =>
+          let x1 := with_ck x (x_ckpts x) (x_pending x) (filter (fun t => negb (fst t =? id)) (x_cktasks x)) in
+          let '(w1, x2, ok) := save_list_f w x1 f in
+          let w2 := set_db w1 d x2 in
+          if ok then add_handle w2 (id, x_dir x) else w2
+      | None => w
+      end
+  | None => w
+  end.
+
+Definition step_retain (w : world) (d : N) (ids : list N) (f : N) : world :=
+  match get_db w d with
+  | Some x =>
+      let keep := filter (retain_keeps ids) (x_ckpts x) in
+      let drop := filter (fun c => negb (retain_keeps ids c)) (x_ckpts x) in
+      let '(w1, x1, _) := save_list_f w (with_ck x keep (x_pending x ++ drop) (x_cktasks x)) f in
+      set_db w1 d x1
+  | None => w
+  end.
+Definition retain_ok (w : world) (d : N) (ids : list N) (f : N) : bool :=
+  match get_db w d with
+  | Some x => snd (save_list_f w (with_ck x (filter (retain_keeps ids) (x_ckpts x))
+                                        (x_pending x ++ filter (fun c => negb (retain_keeps ids c)) (x_ckpts x)) (x_cktasks x)) f)
+  | None => true
+  end.
 
 Definition step (w : world) (o : op) : world :=
   match o with
@@ -244,6 +302,18 @@ Definition step (w : world) (o : op) : world :=
           end
       | None => w
       end
+  | OStepFlushF d =>
+      match get_db w d with
+      | Some x =>
+          match x_flush x with
+          | FBegin =>
+              (* the first table's Save fails: its number is used up, no file appears, the task ends; the next queued flush starts *)
+              let x1 := with_objs x (x_next x + 1) (x_objs x) in
+              set_db w d (match x_flushq x1 with O => with_flush x1 FNone O | S q => with_flush x1 FBegin q end)
+          | _ => w
+          end
+      | None => w
+      end
   | OStepCompact d r =>
       match get_db w d with
       | Some x =>
@@ -264,46 +334,24 @@ Definition step (w : world) (o : op) : world :=
           end
       | None => w
       end
-  | OStepCkpt d id =>
-      match get_db w d with
-      | Some x =>
-          match find (fun t => fst t =? id) (x_cktasks x) with
-          | Some (_, false) =>
-              match find (fun c => c_id c =? id) (x_ckpts x ++ x_pending x) with
-              | Some c =>
-                  let w1 := set_fs w (fs_put (g_fs w) (c_wal c) (FWal (c_content c))) in
-                  set_db w1 d (with_ck x (x_ckpts x) (x_pending x) (map (fun t => if fst t =? id then (id, true) else t) (x_cktasks x)))
-              | None => w
-              end
-          | Some (_, true) =>
-              let x1 := with_ck x (x_ckpts x) (x_pending x) (filter (fun t => negb (fst t =? id)) (x_cktasks x)) in
-              let '(w1, x2) := save_list w x1 in
-              let w2 := set_db w1 d x2 in
-              mkWorld (g_fs w2) (g_dbs w2) (g_handles w2 ++ [(id, x_dir x)]) (g_nextdir w2) (g_mem w2) (g_walmax w2)
-          | None => w
-          end
-      | None => w
-      end
-  | ORetain d ids =>
-      match get_db w d with
-      | Some x =>
-          let keep := filter (retain_keeps ids) (x_ckpts x) in
-          let drop := filter (fun c => negb (retain_keeps ids c)) (x_ckpts x) in
-          let '(w1, x1) := save_list w (with_ck x keep (x_pending x ++ drop) (x_cktasks x)) in
-          set_db w1 d x1
-      | None => w
-      end
+  | OStepCkpt d id => step_ckpt w d id 0
+  | OStepCkptF d id f => step_ckpt w d id f
+  | ORetain d ids => step_retain w d ids 0
+  | ORetainF d ids f => step_retain w d ids f
   | ORestore _ id same o nb =>
       let dir := if same then match handle_dir w id with Some hd => hd | None => 0 end else g_nextdir w in
       match open_from w id dir o nb with
       | RFail _ => add_db w (dead_db w) (negb same)
-      | ROpen x => add_db w x (negb same)
+      | ROpen x =>
+          (* a database restored into the directory of its source supersedes the other handles of that directory *)
+          let gone := if same then map fst (filter (fun h => (snd h =? dir) && negb (fst h =? id)) (g_handles w)) else [] in
+          add_db (add_dropped w gone) x (negb same)
       end
   | OCrash d => match get_db w d with Some x => set_db w d (with_state x Crashed) | None => w end
   | ODrop d => match get_db w d with Some x => set_db w d (with_state x Dropped) | None => w end
   | OGc =>
       let '(f, dbs, _) := fold_left (gc_db w) (g_dbs w) (g_fs w, [], []) in
-      mkWorld f dbs (g_handles w) (g_nextdir w) (g_mem w) (g_walmax w)
+      mkWorld f dbs (g_handles w) (g_nextdir w) (g_mem w) (g_walmax w) (g_dropped w)
   | ORead _ => w
   end.
 
